@@ -357,6 +357,8 @@ class HistogramND(HistogramBase):
         if value_array.dtype.kind == "f" and np.isnan(value_array).any():
             return None  # Not an observation (as in fill_n and in the constructors)
         self._coerce_dtype(type(weight))
+        if isinstance(weight, np.integer):
+            weight = int(weight)  # weight**2 must not wrap around in a narrow type
         for i, binning in enumerate(self._binnings):
             if binning.is_adaptive():
                 bin_map = binning.force_bin_existence(value_array[i])
